@@ -30,7 +30,7 @@ def wire_session(env, caps, log):
 
 def run(ctx: core.Ctx):
     rng = ctx.rng
-    pr = core.check_proofs(ctx, "Props/C17")
+    pr = core.check_proofs(ctx, "Props/C17", headers=[pk.HEADER])
     disagreements, samples = [], []
     distinct = set()
     witness = None
